@@ -249,3 +249,16 @@ def Mtie_avg(eps):
             rew = np.array([[[1.0, 1.0], [0.5 + d, 0.5 + d]], [[0.0, 0.0], [0.0, 0.0]]])
             out.append(mdp(nxt, rew, 0.5))
     return out
+
+
+def Manchor():
+    """Two absorbing anchors paying +1 and -1 per step plus one deciding state with two actions
+    (reward in {-1,0,1}, successor in {0,1,2}): 81 MDPs whose first sweeps change values with both
+    signs (absorbing states, rewards of either sign, sign-symmetric value changes)."""
+    out = []
+    for ra, rb in itertools.product((-1.0, 0.0, 1.0), repeat=2):
+        for na, nb in itertools.product(range(3), repeat=2):
+            nxt = np.array([[[0], [0]], [[1], [1]], [[na], [nb]]], dtype=np.int32)
+            rew = np.array([[[1.0], [1.0]], [[-1.0], [-1.0]], [[ra], [rb]]])
+            out.append(mdp(nxt, rew, 1.0))
+    return out
